@@ -1,7 +1,7 @@
 (** C16 — a truncated encoding is reported as a decode error, never as a
     value.  Statements only; proofs in Per/UperPB.v (UPER).  The other codecs'
     theorems are added here as their models are delivered. *)
-From Asn1V Require Import Base.Prelude Base.Bits Syntax.Asn1 Per.UperImpl Per.UperPrim Per.UperPB.
+From Asn1V Require Import Base.Prelude Base.Bits Syntax.Asn1 Per.UperImpl Per.UperPrim Per.UperPB Per.UperRT.
 
 (** UPER, all modelled types (every nesting of BOOLEAN, INTEGER in all its
     constraint forms, ENUMERATED, NULL, BIT/OCTET/character strings incl.
@@ -20,6 +20,17 @@ Theorem C16_uper_truncation :
       exists x, uper_decode numeric fuel e t (firstn k data) = Err x /\ is_decode_error x = true.
 Proof. exact uper_decode_truncation. Qed.
 Print Assumptions C16_uper_truncation.
+
+(** For encoder outputs the hypotheses are discharged by the round-trip
+    theorem: every strict octet prefix of every UPER encoding is a decode
+    error. *)
+Theorem C16_uper_truncated_encoding :
+  forall numeric fuel e t v data,
+    uper_encode numeric fuel e t v = Ok data ->
+    forall k, (k < length data)%nat ->
+      exists x, uper_decode numeric fuel e t (firstn k data) = Err x /\ is_decode_error x = true.
+Proof. exact uper_truncation. Qed.
+Print Assumptions C16_uper_truncated_encoding.
 
 (** The bit-level statement it rests on: prefix behaviour of the
     type-directed decoder. *)
